@@ -51,4 +51,12 @@ CHECKS.update({
          "text": "Values vs the loop interpreter with the same numpy function, call count, axis= argument, equal-rank broadcastable arguments, keyword-only forwarding across cache hits, name clashes and wrong outputs; adapt_with_vmap is NOT decided (no framework with vmap importable).",
          "note": B_NOTE},
 })
+CHECKS.update({
+ "C04": {"level": "other", "technique": "postcondition of compile(): syntactic flow rule (returned text = exec'ed text) + input-independent term equality between the renamed-apart generated text and the IR graph + execution of the returned text in an empty namespace vs a reference IR interpreter (bounded)",
+         "text": "E6 is a rule over the real compile()/api.inner; E1-E5 are evaluated for every graph compiled while running the corpus and for random synthetic graphs over all IR node types: term equality holds for all inputs of each graph, so the bound is on graphs, not on data.",
+         "note": B_NOTE + "Trusted: reference interpreter and term comparator (written for this check); x[(k,)] = x[k]. The name-generator kernel of DESIGN §3 (yield support) is not built: stress calls with up to 800 variable groups stand in."},
+ "C06": {"level": "other", "technique": "context-stack contracts proved from the real AST (DependOn.__exit__, registry _enter/_exit; z3) + shared-state inventory rule + warm-vs-cold outcome equality on enumerated histories (bounded)",
+         "text": "Balanced stacks are proved for all stack contents; 'no other call-time shared state' is a syntactic inventory; cache-key adequacy and the cache invariant are NOT proved (the Python value model kernel of DESIGN §3 is not built) - they are evaluated as equality of every pool call's outcome after a history with its outcome in a fresh interpreter.",
+         "note": P_NOTE + B_NOTE + "Induction over histories on paper (Appendix A3); functools.cache trusted."},
+})
 NOT_APPLICABLE = {}
